@@ -33,8 +33,14 @@ func genC07(t *rapid.T) *Case {
 				return g.pick("listrolev", ` role="presentation"`, ` role="none"`, ` role="list"`)
 			}
 		case "li", "tr", "td", "th", "blockquote", "pre":
-			if g.intn(0, 11, "ariafalse") == 0 {
+			switch g.intn(0, 15, "ariafalse") {
+			case 0:
 				return ` aria-hidden="false"`
+			case 1:
+				// properties whose names merely end like the ones that hide
+				if tag == "tr" || tag == "td" || tag == "th" {
+					return g.pick("benignstyle", ` style="backface-visibility: hidden"`, ` style="-webkit-backface-visibility:hidden;"`, ` style="content-visibility: auto; x-display: none"`)
+				}
 			}
 		}
 		return ""
